@@ -34,6 +34,17 @@ var discardLog = func() *slog.Logger {
 	return slog.New(slog.NewTextHandler(io.Discard, nil))
 }()
 
+// ---- controlled map iteration order of the mirror (harness/tools/rangexform) ----
+
+// mapDesc: the mirror's rewritten map ranges iterate in descending key order (MAPREV event toggles it); ascending
+// otherwise. Either is an order Go's map iteration may produce; fixing it removes one source of nondeterminism and
+// the toggle explores the other extreme.
+var mapDesc bool
+
+func init() {
+	tmmirror.VerifSetMapOrderHookAll(func(site string) bool { return mapDesc })
+}
+
 // ---- fault-injecting store wrappers (E-FLT) ----
 
 // faults is shared by all store wrappers of one node: one global sequence of mutating calls.
